@@ -29,6 +29,8 @@ FUNCTIONS = [
     "pde.fields.vectorial:VectorField.from_expression",
     "pde.fields.vectorial:VectorField.dot",
     "pde.fields.vectorial:VectorField.outer_product",
+    "pde.backends.numba.backend:NumbaBackend.make_outer_prod_operator",
+    "pde.backends.numba.backend:NumbaBackend.make_inner_prod_operator",
     "pde.grids.base:GridBase.get_vector_data",
     "pde.grids.spherical:SphericalSymGridBase.get_image_data",
     "pde.backends.numba.operators.cylindrical_sym:make_vector_gradient",
@@ -222,6 +224,9 @@ def scenario_pipeline(env, cfg):
             lhs.append(res.data[(i,) + idx])
             rhs.append(a * float(coords[idx][i]))
     env.close("radial-field-becomes-(x,y[,z])", lhs, rhs, scale=SC)
+    if kind == "cyl":
+        # r*e_r has no axial part: (x, y, 0) on every target cell, also away from the plane z = 0
+        env.close("radial-field:no-z-component", list(res.data[2].flat), [0] * int(np.prod(cart.shape)), scale=SC)
     env.observe("res", res.data)
     env.reach()
 
@@ -297,12 +302,105 @@ def scenario_vector_data(env, cfg):
         env.prove(f"get_vector_data:{which}-field", bool(np.allclose(np.array(lhs, dtype=float), np.array(rhs, dtype=float), rtol=0.02, atol=0.02)))
 
 
+def scenario_products(env, cfg):
+    """dot and outer products keep the component order: field API (numpy) and the numba operators, distinct operands"""
+    import importlib
+
+    import pde
+    from pde.backends import get_backend
+
+    from . import c16_interpolation as I
+
+    I._prepare(env)
+    kind = cfg["kind"]
+    grid = {"polar": lambda: pde.PolarSymGrid((1, 2), 2), "sph": lambda: pde.SphericalSymGrid((1, 2), 2), "cyl": lambda: pde.CylindricalSymGrid((1, 2), (0, 1), (2, 1))}[kind]()
+    names = list(grid.axes) + list(grid.axes_symmetric)
+    dim = grid.dim
+    dt = object if env.sym else float
+    a = env.array("a", (dim,) + grid.shape, -4, 4)
+    b = env.array("b", (dim,) + grid.shape, -4, 4)
+    c = env.array("c", (dim,) + grid.shape, -4, 4)
+    A = pde.VectorField(grid, np.array(a, copy=True), dtype=dt)
+    Bf = pde.VectorField(grid, np.array(b, copy=True), dtype=dt)
+    Cf = pde.VectorField(grid, np.array(c, copy=True), dtype=dt)
+    want_outer = np.empty((dim, dim) + grid.shape, dtype=dt)
+    for i in range(dim):
+        for j in range(dim):
+            want_outer[i, j] = a[i] * b[j]
+    want_dot = O.total(a[i] * b[i] for i in range(dim))
+    want_tc = np.empty((dim,) + grid.shape, dtype=dt)  # (a (x) b) . c = a (b . c)
+    bc_ = O.total(b[j] * c[j] for j in range(dim))
+    for i in range(dim):
+        want_tc[i] = a[i] * bc_
+    # field API
+    # (the method allocates a float64 result when no `out` is given: an object-dtype result field for the symbolic run)
+    T = A.outer_product(Bf, out=pde.Tensor2Field(grid, dtype=dt)) if env.sym else A.outer_product(Bf)
+    env.close("field-api:outer[i,j]=a_i*b_j", list(np.asarray(T.data, dtype=dt).flat), list(want_outer.flat), scale=SC)
+    for i, ni in enumerate(names):
+        for j, nj in enumerate(names):
+            env.close(f"field-api:outer[{ni},{nj}]=a[{ni}]*b[{nj}]", list(np.asarray(T[ni, nj].data, dtype=dt).flat), list(np.asarray(A[ni].data * Bf[nj].data, dtype=dt).flat), scale=SC)
+    kw_s = {"out": pde.ScalarField(grid, dtype=dt)} if env.sym else {}
+    kw_v = {"out": pde.VectorField(grid, dtype=dt)} if env.sym else {}
+    env.close("field-api:dot=sum_i(a_i*b_i)", list(np.asarray(A.dot(Bf, **kw_s).data, dtype=dt).flat), list(np.asarray(want_dot, dtype=dt).flat), scale=SC)
+    env.close("field-api:(a(x)b).c=a(b.c)", list(np.asarray(T.dot(Cf, **kw_v).data, dtype=dt).flat), list(want_tc.flat), scale=SC)
+    # numba operators; un-jitted run: the overloads that numba compiles are captured and their specialisations executed
+    nb = get_backend("numba")
+    nbmod = importlib.import_module("pde.backends.numba.backend")
+    utils = importlib.import_module("pde.backends.numba.utils")
+    captured = {}
+    saved = (nbmod.nb_overload, utils.get_common_numba_dtype)
+    if env.sym:
+
+        def _capture(fn, **kw):
+            def deco(ol):
+                captured[fn.__name__] = ol
+                return ol
+
+            return deco
+
+        nbmod.nb_overload = _capture
+        utils.get_common_numba_dtype = lambda *args: object  # result arrays of the symbolic run hold objects
+    try:
+        op_outer = nb.make_outer_prod_operator(A)
+        op_dot = nb.make_inner_prod_operator(A)
+        op_dot_t = nb.make_inner_prod_operator(T)
+        results = {}
+        if env.sym:
+            import numba as _nb
+
+            vec_t = _nb.types.Array(_nb.float64, 1 + grid.num_axes, "C")
+            ten_t = _nb.types.Array(_nb.float64, 2 + grid.num_axes, "C")
+            results["numba:outer"] = captured["outer"](vec_t, vec_t, _nb.types.none)(np.array(a, copy=True), np.array(b, copy=True), None)
+            out = np.empty((dim, dim) + grid.shape, dtype=dt)
+            captured["outer"](vec_t, vec_t, ten_t)(np.array(a, copy=True), np.array(b, copy=True), out)
+            results["numba:outer(out=)"] = out
+            # (re-create the dot operator so that `captured["dot"]` is the one of this operator)
+            results["numba:dot"] = captured["dot"](vec_t, vec_t, _nb.types.none)(np.array(a, copy=True), np.array(b, copy=True), None)
+            results["numba:tensor.dot(vector)"] = captured["dot"](ten_t, vec_t, _nb.types.none)(np.array(want_outer, copy=True), np.array(c, copy=True), None)
+        else:
+            results["numba:outer"] = op_outer(np.array(a, copy=True), np.array(b, copy=True))
+            out = np.empty((dim, dim) + grid.shape)
+            op_outer(np.array(a, copy=True), np.array(b, copy=True), out)
+            results["numba:outer(out=)"] = out
+            results["numba:dot"] = op_dot(np.array(a, copy=True), np.array(b, copy=True))
+            results["numba:tensor.dot(vector)"] = op_dot_t(np.array(want_outer, copy=True), np.array(c, copy=True))
+    finally:
+        nbmod.nb_overload, utils.get_common_numba_dtype = saved
+    env.close("numba:outer[i,j]=a_i*b_j", list(np.asarray(results["numba:outer"], dtype=dt).flat), list(want_outer.flat), scale=SC)
+    env.close("numba:outer(out=)[i,j]=a_i*b_j", list(np.asarray(results["numba:outer(out=)"], dtype=dt).flat), list(want_outer.flat), scale=SC)
+    env.close("numba:dot=sum_i(a_i*b_i)", list(np.asarray(results["numba:dot"], dtype=dt).flat), list(np.asarray(want_dot, dtype=dt).flat), scale=SC)
+    env.close("numba:(a(x)b).c=a(b.c)", list(np.asarray(results["numba:tensor.dot(vector)"], dtype=dt).flat), list(want_tc.flat), scale=SC)
+    env.observe("outer", results["numba:outer"])
+    env.reach()
+
+
 def cases(tier, seed):
     out = [{"name": "operators-by-name:cyl", "scenario": "scenario_operators_by_name", "cfg": {}}, {"name": "vector-data:polar", "scenario": "scenario_vector_data", "cfg": {}, "validate_paths": 0}]
     for k in ("polar", "sph", "cyl"):
         out.append({"name": f"basis:{k}", "scenario": "scenario_basis", "cfg": {"kind": k}})
         out.append({"name": f"component-order:{k}", "scenario": "scenario_component_order", "cfg": {"kind": k}})
         out.append({"name": f"pipeline:{k}", "scenario": "scenario_pipeline", "cfg": {"kind": k}})
+        out.append({"name": f"products:{k}", "scenario": "scenario_products", "cfg": {"kind": k}})
     return out
 
 
